@@ -13,6 +13,14 @@ BIG = 1 << 40
 class Target:
     """archive location of one of the kinds the property quantifies over"""
 
+    def volumes(self) -> int:
+        """number of volume files on disk (multivolume targets)"""
+        if self.kind != "multivolume":
+            return 0
+        import glob
+
+        return len(glob.glob(glob.escape(self.path) + ".*"))
+
     def __init__(self, kind, workdir, volume=None, name="t.7z"):
         self.kind = kind
         self.workdir = workdir
@@ -166,3 +174,47 @@ def exc_sig(e):
         if "/py7zr/" in fr.filename:
             frame = "%s:%s" % (os.path.basename(fr.filename), fr.name)
     return type(e).__name__, frame
+
+
+# ---------------------------------------------------------------- KF-47 (open, dependency): inflate64's encoder
+_PY2RC = {3: "03", 4: "03030103", 5: "03030205", 6: "03030401", 7: "03030501", 8: "03030701", 9: "03030805"}
+
+
+def kf47(filters, datas) -> bool:
+    """True iff the chain contains Deflate64 and the inflate64 library itself does not round-trip what this folder feeds it
+    (members concatenated, passed through the filters in front of Deflate64).  Decided by running the library on the exact
+    input, not by guessing from the symptom."""
+    if not filters:
+        return False
+    ids = [f["id"] for f in filters]
+    if G.F_DEFLATE64 not in ids:
+        return False
+    from ref7z import coders as RC
+
+    data = b"".join(bytes(d) for d in datas)
+    try:
+        for f in filters[: ids.index(G.F_DEFLATE64)]:
+            m = _PY2RC.get(f["id"])
+            if m is None:
+                return False
+            coder = {"m": m}
+            if f["id"] == 3:
+                coder["dist"] = f.get("dist", 1)
+            data = RC.encode_stage(coder, data)
+    except Exception:
+        return False
+    return not RC.inflate64_roundtrips(data)
+
+
+def tag_kf47(out, pairs):
+    """pairs: [(filters, [member bytes of that folder in order])].  Marks every violation of a case in which KF-47 applies."""
+    if out is None or not getattr(out, "violations", None):
+        return out
+    try:
+        hit = any(kf47(f, d) for f, d in pairs)
+    except Exception:
+        hit = False
+    if hit:
+        for v in out.violations:
+            v["signature"]["kf47"] = True
+    return out
